@@ -159,7 +159,7 @@ func RunRootsDirect(c *sim.Ctx) {
 
 type mapSource struct{ m map[hash.Event]dag.Event }
 
-func (s *mapSource) HasEvent(h hash.Event) bool     { _, ok := s.m[h]; return ok }
+func (s *mapSource) HasEvent(h hash.Event) bool      { _, ok := s.m[h]; return ok }
 func (s *mapSource) GetEvent(h hash.Event) dag.Event { return s.m[h] }
 
 type nopIndex struct{}
